@@ -3,8 +3,13 @@ package kernel
 import (
 	"fmt"
 	"os"
+	"runtime"
 	"sort"
+	"strconv"
 	"strings"
+	"sync"
+	"sync/atomic"
+	"time"
 )
 
 // Violation is the first oracle failure of a run.
@@ -214,7 +219,50 @@ func (c *RunCtx) note() {
 func (c *RunCtx) Count(name string, d int) { c.Stats.Counters[name] += int64(d) }
 
 // Exec counts one execution of code under test.
-func (c *RunCtx) Exec() { c.Stats.Execs++ }
+func (c *RunCtx) Exec() {
+	c.Stats.Execs++
+	atomic.StoreInt64(&lastExec, time.Now().UnixNano())
+}
+
+// lastExec is the wall-clock instant of the most recent library execution (0: none yet); the hang watchdog of a
+// worker / replay process reads it. It never influences a run: no choice is derived from it.
+var lastExec int64
+
+// HangLimit is how long one library call (plus the harness work that follows it) may take before the process
+// declares it hung. Generous on purpose: the slowest legitimate step takes a few seconds.
+func HangLimit() time.Duration {
+	if s := os.Getenv("VERIF_HANG_SECS"); s != "" {
+		if n, err := strconv.Atoi(s); err == nil && n > 0 {
+			return time.Duration(n) * time.Second
+		}
+	}
+	return 120 * time.Second
+}
+
+var watchdogOnce sync.Once
+
+// StartHangWatchdog makes the process exit with ExitHang once a library call has not returned for HangLimit().
+// Go pre-empts tight loops, so the watchdog goroutine runs even with GOMAXPROCS=1.
+func StartHangWatchdog() {
+	watchdogOnce.Do(func() {
+		limit := HangLimit()
+		go func() {
+			for {
+				time.Sleep(limit / 20)
+				if t := atomic.LoadInt64(&lastExec); t != 0 && time.Since(time.Unix(0, t)) > limit {
+					fmt.Fprintf(os.Stderr, "\nVERIF-HANG: a library call has not returned for %v (limit %v)\n", time.Since(time.Unix(0, t)).Round(time.Second), limit)
+					buf := make([]byte, 1<<16)
+					n := runtime.Stack(buf, true)
+					fmt.Fprintf(os.Stderr, "%s\n", buf[:n])
+					os.Exit(ExitHang)
+				}
+			}
+		}()
+	})
+}
+
+// ExitHang is the exit code of a worker or replay process whose watchdog fired.
+const ExitHang = 71
 
 // Distinct records a history/schedule key for the distinct measure.
 func (c *RunCtx) Distinct(key string) { c.Stats.Distinct[FNV64(0, key)] = true }
